@@ -405,3 +405,45 @@ Qed.
 
 Print Assumptions vunpaged_exact.
 Print Assumptions vwalk_complete.
+
+
+(* ---- (e) markers that are not themselves listed ---- *)
+
+(* a key marker whose key is not listed individually under the prefix / delimiter (it lies
+   outside the prefix, or inside a common prefix) filters nothing: the page lists, without
+   limit, every listed entry of the keys from the marker on *)
+Lemma ventries_marker_unlisted pre delim km vm items :
+  prefix_match pre delim km <> MContent ->
+  ventries pre delim km vm items = all_versions pre delim items.
+Proof.
+  intros Hm. induction items as [|kv items IH]; [reflexivity|].
+  unfold ventries, all_versions in *. cbn [flat_map]. rewrite IH. f_equal.
+  unfold key_entries. destruct (prefix_match pre delim (fst kv)) eqn:Epm; try reflexivity.
+  destruct (negb (beq km []) && beq (fst kv) km) eqn:E; [|reflexivity].
+  apply andb_prop in E. destruct E as [_ E]. apply beq_eq in E. rewrite E in Epm. contradiction.
+Qed.
+
+(* every marker pair and every prefix get a listing as answer (never an error), namely the page
+   of the client walk *)
+Lemma list_versions_answers s b bk pre delim km vm mk :
+  get_bucket s b = Some bk ->
+  exists show, list_versions s b pre delim km vm mk =
+               VLOk (vpage pre delim mk (b_objs bk) km (match km with [] => None | _ => vm end)) show.
+Proof.
+  intros Hb. unfold list_versions, vpage. rewrite Hb. destruct km; eexists; reflexivity.
+Qed.
+
+(* a page requested with such a marker: a prefix l1 of every listed entry of the keys from the
+   marker on, at most max-keys of them, and everything when the page is not truncated *)
+Lemma vpage_marker_unlisted pre delim km vm mk objs :
+  1 <= mk -> prefix_match pre delim km <> MContent -> km <> [] ->
+  exists l1 l2, all_versions pre delim (sm_seek km objs) = l1 ++ l2 /\
+    vl_entries (vpage pre delim mk objs km vm) = l1 /\ Z.of_nat (length l1) <= mk /\
+    (vl_truncated (vpage pre delim mk objs km vm) = false -> l2 = []).
+Proof.
+  intros H1 Hm Hk. unfold vpage. destruct km as [|c km']; [contradiction|].
+  destruct (scan_page pre delim (c :: km') vm mk H1 (sm_seek (c :: km') objs) 0 [] []) as (l1 & l2 & E & Ev & Hl & Ht); [lia|].
+  exists l1, l2. rewrite <- (ventries_marker_unlisted pre delim (c :: km') vm) by exact Hm.
+  split; [exact E|]. split; [exact Ev|]. split; [lia|].
+  intros Hf. destruct Ht as [[_ Hn]|[Ht _]]; [exact Hn|]. rewrite Ht in Hf. discriminate.
+Qed.
